@@ -260,11 +260,17 @@ class Interp:
         self.ceils = {g['name'][5:]: g['v'] for g in self.F.globs(r'^randomx::ceil_')}
         opc_id = None
         prev = 0
+        prefix = []         # declarations of locals shared by the blocks that follow them (an immediate decoded once, ...)
         for s in body:
             if s['k'] == 'Decl' and opc_id is None:
                 d = s['d'][0]
                 if 'init' in d and mem_of(d['init'], self.p_instr) == 'opcode':
                     opc_id = d['id']
+                else:
+                    prefix.append(s)
+                continue
+            if s['k'] == 'Decl':
+                prefix.append(s)
                 continue
             if s['k'] == 'If':
                 c = strip_all(s['c'])
@@ -275,7 +281,8 @@ class Interp:
                     if hi < prev:
                         raise AnalysisBroken('decoder: opcode ceilings not increasing at %s' % loc(s, self.f))
                     blk = dict(name=cname, lo=prev, hi=hi, node=s, line=s.get('ln'))
-                    blk['paths'] = [self._path_facts(p, blk) for p in paths(s['t'])]
+                    body_t = s['t'] if not prefix else {'k': 'Compound', 'ln': s['t'].get('ln'), 's': list(prefix) + (s['t']['s'] if s['t']['k'] == 'Compound' else [s['t']])}
+                    blk['paths'] = [self._path_facts(p, blk) for p in paths(body_t)]
                     for pf in blk['paths']:
                         if not pf['returned']:
                             raise AnalysisBroken('decoder block %s has a path that does not return (%s)' % (cname, loc(s, self.f)))
@@ -413,6 +420,14 @@ class Interp:
                     fld = mem_of(l, self.p_ibc)
                     if fld:
                         ent = fields.setdefault(fld, dict(nodes=[], ops=[]))
+                        # a right-hand side that is just a local initialised earlier on this path stands for its initialiser
+                        r_ = strip_all(x['r'])
+                        hops = 0
+                        while r_['k'] == 'Ref' and vars_.get(r_.get('id'), (None,))[0] == 'expr' and hops < 4:
+                            r_ = strip_all(vars_[r_['id']][1])
+                            hops += 1
+                        if hops:
+                            x = dict(x, r=r_)
                         ent['nodes'].append(x)
                         ent['ops'].append(x['op'])
                         if fld in ('idst', 'fdst', 'isrc', 'fsrc'):
